@@ -14,6 +14,12 @@ CLAIMED = {
  "C04": ("exploration", "property-based testing (Hypothesis) of program shapes x driver configurations with an instruction-counting / size-sampling dispatch hook as monitor",
          "56 looping / recursing / allocating program shapes x 0-3 nested catches x generated driver configurations (fresh driver per configuration). The H1 hook counts dispatched instructions (an evaluation passing 2 x MaxEvaluationCost + 200 is stopped and reported), samples control- and value-stack depth and the sizes of the top stack values at every instruction; never-ending shapes must return to the harness as an uncatchable limit error; memory errors while a limit should have struck are violations.",
          "Work inside one efun call is not counted by evaluation cost; sizes are sampled on the top three stack slots and the returned value; efuns whose results ignore MaxStringLength are listed as known findings."),
+ "C10": ("exploration", "model-based property testing (Hypothesis histories vs a reference scheduler) through the real backend loop with a virtual clock",
+         "Histories of call_out/remove_call_out/find_call_out (by name, by handle, remove-all), owner destruction, failing callbacks and operations issued from inside callbacks, interleaved with ticks of spacing 1..100 s, run through the real backend()/call_out() code with an interposed clock and scripted timer ticks; a reference scheduler decides which call_outs must fire in which tick, with which arguments, and what find/remove must return.",
+         "Order of callbacks within one tick is unspecified (compared as a multiset); a removal issued from a callback in the tick where its target is due may or may not win."),
+ "C11": ("exploration", "property-based testing (Hypothesis histories) with invariant oracle over a sequence-numbered invocation log, through the real backend loop",
+         "Populations of 1-8 heart-beat objects with intervals 1-4 and scripts performing set_heart_beat(self/other), destruct(self/other), load-and-enable and error inside heart_beat, plus the same actions between ticks; 5-40 scripted ticks through the real call_heart_beat(). Invariants: at most one call per tick, no call after disable/destruct completed, exact period in error-free runs, failing object switched off, query_heart_beat agrees with the model after every tick.",
+         "The first call after (re-)enabling is accepted in a window of ticks (the statement does not fix it); ticks with an error are excluded from the period rule."),
 }
 NA_REASON = "check not yet built in this session (machinery under construction; see DESIGN.md section 4 for the planned check)"
 
